@@ -155,6 +155,8 @@ def gen_case(rng, index, tier):
         return gen_system_case(rng)
     if r < 0.18:
         return gen_basis_case(rng)
+    if r < 0.23:
+        return gen_topo_case(rng)
     prog = gen_prog(rng)
     cfg = dict(cache=rng.random() < 0.75, simplify=rng.random() < 0.85, optimize=rng.random() < 0.85, stats=rng.random() < 0.08, compile_procs=rng.choice([1, 1, 1, 3]))
     nsets = rng.choice([1, 2, 3])
@@ -199,6 +201,21 @@ def gen_system_case(rng):
 def gen_basis_case(rng):
     ops = [dict(op=rng.choice(['dofs', 'coeffs', 'ndofs', 'eval']), ielem=rng.randrange(8), scribble=rng.random() < 0.6) for _ in range(rng.choice([3, 6, 10]))]
     return dict(kind='basis', mesh=rng.choice(['line', 'quad']), nelems=rng.choice([2, 3, 4]), btype=rng.choice(['std', 'spline', 'discont']), degree=rng.choice([1, 2]), ops=ops)
+
+
+def gen_topo_case(rng):
+    '''Long-lived compiled functions inside the library: Topology._locate compiles (x, dx/dxi) once and calls it for every candidate element
+    and Newton iterate with the SAME arguments dict and a point array that is updated in place; trim compiles the level set once and calls it per element.'''
+    what = rng.choice(['locate', 'locate', 'trim'])
+    case = dict(kind='topo', what=what, mesh=rng.choice(['line', 'quad', 'tri']), nelems=rng.choice([2, 3, 4, 6]), pseed=rng.randrange(1 << 30),
+                scale=rng.choice([1., 2., .5]), witharg=rng.random() < 0.6)
+    if what == 'locate':
+        npool = rng.choice([3, 5, 7])
+        case.update(npool=npool, tolkind=rng.choice(['eps', 'tol', 'both']), maxdist=rng.random() < 0.2, weights=rng.random() < 0.2,
+                    ops=[dict(op='locate', pts=[rng.randrange(npool) for _ in range(rng.choice([1, 2, 3, 5, 8]))]) for _ in range(rng.choice([1, 2, 3]))])
+    else:
+        case.update(ops=[dict(op='trim', ls=rng.randrange(3), maxrefine=rng.choice([0, 1, 2])) for _ in range(rng.choice([1, 2, 3]))])
+    return case
 
 
 # ---------------------------------------------------------------------- helpers
@@ -504,7 +521,7 @@ def run_compiled(case, skip_first_run_views=False):
 
 
 def finish(bad, log, probes, nontrivial, case):
-    sig = core.sha([case.get('prog', case.get('spec', case.get('mesh'))), case.get('cfg'), [list(map(str, l)) for l in log]])
+    sig = core.sha([case.get('prog', case.get('spec', [case.get('mesh'), case.get('nelems'), case.get('what'), case.get('pseed'), case.get('btype'), case.get('degree')])), case.get('cfg'), [list(map(str, l)) for l in log]])
     res = dict(verdict='pass' if not bad else 'violation', vclass=bad[0] if bad else None, detail=bad[1] if bad else None, digest=sig, sig=sig, steps=len(log), fired={k: v for k, v in probes.items() if k.startswith(('raise_inside', 'scribbled', 'mutate', 'bad_call_rejected', 'parallel'))},
                family=case['kind'] + ':' + str((case.get('prog') or {}).get('family', '')), nontrivial=bool(nontrivial), probes=probes)
     if bad:
@@ -656,6 +673,109 @@ def run_basis(case):
     return finish(None, log, probes, nontrivial, case)
 
 
+def run_topo(case):
+    from nutils import mesh, function
+    ne = case['nelems']
+    if case['mesh'] == 'line':
+        topo, geom = mesh.line(ne)
+        geom = geom[numpy.newaxis] if geom.ndim == 0 else geom
+        ext = numpy.array([ne])
+    elif case['mesh'] == 'quad':
+        topo, geom = mesh.rectilinear([max(1, ne // 2), 2])
+        ext = numpy.array([max(1, ne // 2), 2])
+    else:
+        topo, geom = mesh.unitsquare(max(1, ne // 2), 'triangle')
+        ext = numpy.array([1, 1])
+    nd = topo.ndims
+    rng = random.Random(case['pseed'])
+    s = function.Argument('s', ()) if case['witharg'] else case['scale']
+    g = geom * (1 + geom / 16) * s     # mildly nonlinear: Newton needs several iterates, structured topologies cannot take their affine shortcut
+    userargs = dict(s=numpy.array(case['scale'])) if case['witharg'] else {}
+    snap = {k: v.copy() for k, v in userargs.items()}
+    log, probes = [], {}
+    J = function.J(geom)
+
+    def args_untouched():
+        if set(userargs) != set(snap):
+            return ('A-argument-modified', f'the arguments dictionary passed by the caller now has keys {sorted(userargs)}')
+        for k in snap:
+            if not numpy.array_equal(userargs[k], snap[k]):
+                return ('A-argument-modified', f'argument {k!r} was modified')
+    if case['what'] == 'locate':
+        # interior points (never on an element boundary), dyadic
+        if case['mesh'] == 'tri':
+            pool = []
+            while len(pool) < case['npool']:
+                p = numpy.array([(rng.randrange(0, 64) * 2 + 1) / 128 for _ in range(nd)])
+                h = 1 / max(1, ne // 2)
+                q = (p / h) % 1
+                if abs(q[0] + q[1] - 1) > 1 / 32:
+                    pool.append(p)
+            pool = numpy.array(pool)
+        else:
+            pool = numpy.array([[(rng.randrange(0, 16 * int(e)) * 2 + 1) / 32 for e in ext] for _ in range(case['npool'])])
+        targets = pool * (1 + pool / 16) * case['scale']
+        kw = dict(eps=1e-10) if case['tolkind'] == 'eps' else dict(tol=1e-10) if case['tolkind'] == 'tol' else dict(eps=1e-10, tol=1e-7)
+        if case['maxdist']:
+            kw['maxdist'] = float(numpy.linalg.norm(ext) * case['scale'] * 2)
+        # model: every pool point located ALONE (a fresh compiled function per point), in pristine state
+        model = []
+        for i in range(len(pool)):
+            try:
+                smp = topo.locate(g, targets[i:i + 1], arguments=dict(snap), **kw)
+                model.append((int(smp.eval(topo.f_index)[0]), numpy.array(smp.eval(g, arguments=dict(snap))[0])))
+            except Exception as e:
+                return dict(verdict='discard', vclass='model-raises', detail=f'{type(e).__name__}: {e}'[:200])
+            if not numpy.allclose(model[-1][1], targets[i], atol=1e-6):
+                return dict(verdict='discard', vclass='model-disagreement', detail='a point located alone is not at its target')
+        for op in case['ops']:
+            idx = op['pts']
+            bad = None
+            try:
+                w = numpy.array([1. + k for k in range(len(idx))]) if case['weights'] else None
+                smp = topo.locate(g, targets[idx], arguments=userargs if case['witharg'] else None, weights=w, **kw)
+                # the sample orders its points by element: compare as multisets of (element, image)
+                got = sorted(zip(smp.eval(topo.f_index).tolist(), map(tuple, numpy.round(smp.eval(g, arguments=dict(snap)), 9).tolist())))
+                want = sorted((model[i][0], tuple(numpy.round(model[i][1], 9).tolist())) for i in idx)
+                if len(got) != len(want) or any(a[0] != b[0] or not numpy.allclose(a[1], b[1], atol=1e-8) for a, b in zip(got, want)):
+                    bad = ('V-locate-depends-on-history', f'locating points {idx} together gives (element, image) {got}; each located alone (fresh function) gives {want}')
+                elif case['weights'] and abs(float(smp.integrate(function.ones(()))) - float(w.sum())) > 1e-9:
+                    bad = ('V-locate-depends-on-history', 'weights of the located sample do not sum to the given weights')
+            except Exception as e:
+                bad = ('E-call-raised', f'locate raised {type(e).__name__}: {e}'[:300])
+            bad = bad or args_untouched()
+            log.append(('locate', len(idx), len(set(idx)), 'ok' if not bad else bad[0]))
+            if bad:
+                return finish(bad, log, probes, True, case)
+            probes['locate_calls'] = probes.get('locate_calls', 0) + 1
+            probes['locate_points'] = probes.get('locate_points', 0) + len(idx)
+        return finish(None, log, probes, any(len(op['pts']) > 1 for op in case['ops']), case)
+    # trim: the level set function is compiled once per trim and called once per element
+    x = geom
+    lss = [(x[0] - 0.55 * float(ext[0])) * s, (numpy.sum(x * x) - 0.6 * float(ext[0]) ** 2) * s + 0 * J, (x[-1] - 0.3 * float(ext[-1]) + 0.2 * x[0]) * s]
+    nel = len(topo)
+    for op in case['ops']:
+        ls = lss[op['ls']]
+        bad = None
+        try:
+            tr = topo.trim(ls, maxrefine=op['maxrefine'], arguments=userargs if case['witharg'] else None)
+            vol = float(tr.integrate(J, degree=2, arguments=dict(snap))) if len(tr) else 0.
+            vols = 0.
+            for i in range(nel):   # model: every element trimmed by a trim call of its own (fresh compiled level set function)
+                sub = topo.take([i]).trim(ls, maxrefine=op['maxrefine'], arguments=dict(snap))
+                vols += float(sub.integrate(J, degree=2, arguments=dict(snap))) if len(sub) else 0.
+            if abs(vol - vols) > 1e-11 * (1 + abs(vols)):
+                bad = ('V-trim-depends-on-history', f'trimmed volume {vol} differs from the sum of single-element trims {vols}')
+        except Exception as e:
+            bad = ('E-call-raised', f'trim raised {type(e).__name__}: {e}'[:300])
+        bad = bad or args_untouched()
+        log.append(('trim', op['ls'], op['maxrefine'], 'ok' if not bad else bad[0]))
+        if bad:
+            return finish(bad, log, probes, True, case)
+        probes['trim_calls'] = probes.get('trim_calls', 0) + 1
+    return finish(None, log, probes, nel > 1, case)
+
+
 def worker_init():
     import nutils.evaluable, nutils.parallel, nutils.solver, nutils.mesh, nutils.function, nutils.topology
     import warnings
@@ -679,6 +799,8 @@ def run_case(case):
             return res
         if case['kind'] == 'system':
             return run_system(case)
+        if case['kind'] == 'topo':
+            return run_topo(case)
         return run_basis(case)
 
 
@@ -691,6 +813,17 @@ def shrink_candidates(case):
         for red in shrink.list_reductions(ops):
             if red:
                 yield shrink.with_key(c, 'ops', red)
+    if c['kind'] == 'topo':
+        for i, op in enumerate(ops):
+            if len(op.get('pts', ())) > 1:
+                for red in shrink.list_reductions(op['pts']):
+                    if red:
+                        yield shrink.with_key(c, ['ops', i, 'pts'], red)
+        for key, simple in (('witharg', False), ('weights', False), ('maxdist', False), ('scale', 1.), ('mesh', 'line')):
+            if c.get(key, simple) != simple:
+                yield shrink.with_key(c, key, simple)
+        for v in shrink.int_reductions(c['nelems'], 1):
+            yield shrink.with_key(c, 'nelems', v)
     if c['kind'] == 'compiled':
         for key, simple in (('stats', False), ('compile_procs', 1)):
             if c['cfg'][key] != simple:
